@@ -11,7 +11,9 @@ generated (subject to the delimitation constraints of valid()). Classes are assi
 tags); non-plain spellings are generated for every sequence of length <= 1 and every longer sequence (<= Lc) with a
 comment symbol. Formats: html (read_html), mhtml x {7bit, quoted-printable, base64}, epub chapter, epubseq (three
 chapters, the first ends inside an unterminated element), msg-style body (_html_to_text on a full page; "msgfrag": a body
-fragment without <html>/<body> shell whose tags carry attributes, through the reader's own is-this-HTML decision).
+fragment without <html>/<body> shell whose tags carry attributes, through the reader's own is-this-HTML decision),
+HTML-only messages ("emlhtml", "mboxhtml": the page as the single text/html part of a real .eml / .mbox, read through
+read_eml_format_mail / read_mbox_format_mail, judged on get_full_text()).
 
 Family "cm" (comment forms, {"fam": "cm", "lay", "frame", "k": [slot, slot]}): V0 K1 V1 K2 V2 - two removable
 constructs with visible text before, between and after. A slot is a comment `<!--c-->`, a markup declaration `<!c>`
@@ -73,7 +75,7 @@ CONTEXTS = ["body", "div", "td", "li", "sib"]     # sib: the removed element fol
 SIGMA = ["<p>", "</p>", "<span>", "</span>", "<td>", "</td>", "<img>", "<img/>", "<br>", "<br/>",
          "<n1>", "</n1>", "<n2>", "</n2>", "<r>", "</r>", "T", "C", "D"]
 SIGMA_EXTRA_VOID = ["<input>", "<param>", "<source>", "<hr>", "<wbr>"]
-FORMATS_ALL = ["html", "msgbody", "msgfrag", "epub", "epubseq", "mhtml-qp", "mhtml-7bit", "mhtml-b64", "mhtml-tree"]
+FORMATS_ALL = ["html", "msgbody", "msgfrag", "emlhtml", "mboxhtml", "epub", "epubseq", "mhtml-qp", "mhtml-7bit", "mhtml-b64", "mhtml-tree"]
 # spellings of a comment (family "seq", key "cform")
 CFORMS = ["plain", "ml", "cond", "rev", "tag"]
 # family "cm": comment-content alphabet
@@ -242,6 +244,20 @@ def extract_page(fmt, page, container=None):
         # the reader's own decision whether the stored body is HTML, then its converter (as read_msg_format_mail does)
         from sharepoint2text.parsing.extractors.mail.msg_email_extractor import _html_to_text, _looks_like_html
         return _html_to_text(page) if _looks_like_html(page) else page
+    if fmt in ("emlhtml", "mboxhtml"):
+        # an HTML-only message (no text/plain part): the text of the result is what the library makes of the HTML body
+        import base64
+        head = ("From: A <a@example.org>\r\nTo: B <b@example.org>\r\nSubject: s\r\nDate: Mon, 01 Jan 2024 10:00:00 +0000\r\n"
+                "Message-ID: <verif-c17@example.org>\r\nMIME-Version: 1.0\r\nContent-Type: text/html; charset=\"utf-8\"\r\n"
+                "Content-Transfer-Encoding: base64\r\n\r\n")
+        raw = (head + base64.encodebytes(page.encode("utf-8")).decode("ascii").replace("\n", "\r\n")).encode("ascii")
+        if fmt == "emlhtml":
+            from sharepoint2text.parsing.extractors.mail.eml_email_extractor import read_eml_format_mail
+            res = list(read_eml_format_mail(io.BytesIO(raw), "m.eml"))
+        else:
+            from sharepoint2text.parsing.extractors.mail.mbox_email_extractor import read_mbox_format_mail
+            res = list(read_mbox_format_mail(io.BytesIO(b"From a@example.org Mon Jan  1 10:00:00 2024\n" + raw.replace(b"\r\n", b"\n") + b"\n"), "m.mbox"))
+        return "\n".join(r.get_full_text() for r in res)
     if fmt == "mhtml-tree":
         from sharepoint2text.parsing.extractors.mhtml_extractor import read_mhtml
         res = list(read_mhtml(io.BytesIO(W.mhtml_tree(page, **container)), "p.mhtml"))
